@@ -30,3 +30,4 @@ Theorem flow_check_refines :
     chk_flow_detailed g at_ c outs ins = flow_abs (chk_flow g at_ c outs ins).
 Proof. exact flow_check_refines_lemma. Qed.
 Print Assumptions flow_check_refines.
+
